@@ -77,7 +77,7 @@ func nextEffectKind(ref *lifeObs, k int) string {
 
 // explore: one random environment; a reference life driven by the world; then the same life killed at
 // many effect boundaries, each followed by a restart on the copied log directory (sometimes killed again).
-func (x *runner) explore(maxPoints int) {
+func (x *runner) explore(maxPoints, maxFaults int) {
 	cs := randomCase(x.rng)
 	w := newWorld(&cs, x.rng.Fork(1))
 	w.budget = 8 + x.rng.Intn(18)
@@ -101,43 +101,91 @@ func (x *runner) explore(maxPoints int) {
 		i := x.rng.Intn(len(ks))
 		ks = append(ks[:i], ks[i+1:]...)
 	}
+	type ending struct {
+		k int
+		f *Fault
+	}
+	var ends []ending
 	for _, k := range ks {
-		x.c.Hist["kill-before:"+nextEffectKind(ref, k)]++
-		sc := &Scenario{Case: cs, Lives: []Life{{H: cs.H0, Base: 0, Ins: ins0, CrashAt: k}}}
+		ends = append(ends, ending{k, nil})
+	}
+	// the regular ways out: a failing store call / refusing listener, a cancelled context
+	for i := 0; i < maxFaults; i++ {
+		f := &Fault{Kind: "fail", At: x.rng.Intn(T + 1), Performed: x.rng.Chance(25), CloseOK: x.rng.Chance(70)}
+		if x.rng.Chance(40) {
+			f.Kind, f.Performed = "cancel", false
+			if x.rng.Chance(15) {
+				f.At = T + 5 // shut down at the very end
+			}
+		} else if x.rng.Chance(30) {
+			// aim at the commit callback / the prune after it, when the life has one
+			var at []int
+			for j, e := range ref.effects() {
+				if strings.HasPrefix(e, "cb:") || strings.HasPrefix(e, "pr:") {
+					at = append(at, j)
+				}
+			}
+			if len(at) > 0 {
+				f.At = at[x.rng.Intn(len(at))]
+			}
+		}
+		ends = append(ends, ending{-1, f})
+	}
+	for _, en := range ends {
+		k := en.k
+		if en.f == nil {
+			x.c.Hist["kill-before:"+nextEffectKind(ref, k)]++
+		}
+		sc := &Scenario{Case: cs, Lives: []Life{{H: cs.H0, Base: 0, Ins: ins0, CrashAt: k, Fault: en.f}}}
 		x.or.Ask(cs.newLine()+"\ncheck 1 ; ; ", 1)
-		o0 := runLife(&cs, newDir(), cs.H0, 0, k, fixedFeeder(ins0))
+		o0 := runLifeF(&cs, newDir(), cs.H0, 0, k, en.f, en.f != nil && x.rng.Chance(25), fixedFeeder(ins0))
 		h1 := cs.H0 + countCb(o0.effects())
 		sc.Lives[0].Ins = ins0[:o0.Fed]
 		// the model must see all inputs that could matter up to the kill; it stops printing at k effects
 		x.judge(sc, 0, o0, nil, h1)
+		if o0.Snapshot == "" {
+			x.c.Violation(faultKind(&sc.Lives[0], o0)+":no-close", "driver.Run returned without closing the store", sc, true)
+			continue
+		}
 		pre := o0.effects()
 		// restart
-		w2 := newWorld(&cs, x.rng.Fork(uint64(k)))
+		w2 := newWorld(&cs, x.rng.Fork(uint64(k+7*len(pre))))
 		for _, m := range ins0[:o0.Fed] {
 			if m.K != "to" {
 				w2.sent = append(w2.sent, m)
 			}
 		}
-		w2.digest(&rec{steps: o0.Steps})
+		w2.digest(&rec{steps: []stepObs{{Effs: pre}}})
 		w2.restart(h1, 4+x.rng.Intn(12))
 		k2 := -1
+		var f2 *Fault
 		if x.rng.Chance(25) {
 			k2 = x.rng.Intn(14)
+		} else if x.rng.Chance(20) {
+			f2 = &Fault{Kind: "fail", At: x.rng.Intn(14), Performed: x.rng.Chance(25), CloseOK: x.rng.Chance(70)}
+			if x.rng.Chance(50) {
+				f2.Kind, f2.Performed = "cancel", false
+			}
 		}
 		var ins1 []In
-		o1 := runLife(&cs, o0.Snapshot, h1, 1000, k2, recording(w2.next, &ins1))
-		sc.Lives = append(sc.Lives, Life{H: h1, Base: 1000, Ins: ins1[:o1.Fed], CrashAt: k2})
+		o1 := runLifeF(&cs, o0.Snapshot, h1, 1000, k2, f2, f2 != nil && x.rng.Chance(25), recording(w2.next, &ins1))
+		sc.Lives = append(sc.Lives, Life{H: h1, Base: 1000, Ins: ins1[:o1.Fed], CrashAt: k2, Fault: f2})
 		h2 := h1 + countCb(o1.effects())
 		x.judge(sc, 1, o1, pre, h2)
-		if k2 >= 0 && o1.Snapshot != "" {
+		if (k2 >= 0 || f2 != nil) && o1.Snapshot != "" {
 			pre = append(pre, o1.effects()...)
-			w2.digest(&rec{steps: o1.Steps})
+			w2.seen = 0
+			w2.digest(&rec{steps: []stepObs{{Effs: o1.effects()}}})
 			w2.restart(h2, 3+x.rng.Intn(8))
 			var ins2 []In
 			o2 := runLife(&cs, o1.Snapshot, h2, 2000, -1, recording(w2.next, &ins2))
 			sc.Lives = append(sc.Lives, Life{H: h2, Base: 2000, Ins: ins2[:o2.Fed], CrashAt: -1})
 			x.judge(sc, 2, o2, pre, 0)
-			x.c.Hist["double-kill"]++
+			if f2 != nil || en.f != nil {
+				x.c.Hist["double-ending-with-fault"]++
+			} else {
+				x.c.Hist["double-kill"]++
+			}
 		}
 		if len(x.c.Samples) < 3 && k > 3 && len(sc.Lives[1].Ins) > 0 {
 			x.c.Sample(map[string]any{"case": cs.newLine(), "life0": lifeLine(&sc.Lives[0]), "life1": lifeLine(&sc.Lives[1]),
@@ -181,6 +229,56 @@ func staleTimeoutCase() *Scenario {
 	}
 }
 
+func fallibleEff(e string) bool {
+	return e == "fl" || strings.HasPrefix(e, "w") || strings.HasPrefix(e, "pr:") || strings.HasPrefix(e, "cb:")
+}
+
+// third scripted case: validator 0 proposes 7 at (1,0), everybody votes for it, height 1 commits, height 2 starts.
+func commitCase() (Case, []In) {
+	pv := func(h uint64, r, from int, id int64) In { return In{K: "pv", H: h, R: r, From: from, ID: id} }
+	pc := func(h uint64, r, from int, id int64) In { return In{K: "pc", H: h, R: r, From: from, ID: id} }
+	return Case{Self: 0, H0: 1, Values: []uint64{7}, Blocks: []Block{{Total: 4, Pows: []uint64{1, 1, 1, 1}, Props: []int{0, 1, 2, 3}}}},
+		[]In{pv(1, 0, 1, 7), pv(1, 0, 2, 7), pv(1, 0, 3, 7), pc(1, 0, 1, 7), pc(1, 0, 2, 7), pc(1, 0, 3, 7), pv(2, 0, 0, -1), {K: "to", Step: 0, H: 2, R: 0}}
+}
+
+// every way out of the committing life: each store call / the commit callback fails (performed or not, Close's
+// flush succeeding or not), the context is cancelled at every point; then a restart on what was left.
+func (x *runner) scriptedFaults() {
+	cs, ins := commitCase()
+	ref := runLife(&cs, newDir(), cs.H0, 0, -1, fixedFeeder(ins))
+	effs := ref.effects()
+	var faults []Fault
+	for k := 0; k <= len(effs); k++ {
+		for _, c := range []bool{true, false} {
+			faults = append(faults, Fault{Kind: "cancel", At: k, CloseOK: c})
+			if k < len(effs) && fallibleEff(effs[k]) {
+				faults = append(faults, Fault{Kind: "fail", At: k, CloseOK: c}, Fault{Kind: "fail", At: k, Performed: true, CloseOK: c})
+			}
+		}
+	}
+	for i := range faults {
+		f := faults[i]
+		sc := &Scenario{Case: cs, Lives: []Life{{H: cs.H0, Base: 0, Ins: ins, CrashAt: -1, Fault: &f}},
+			Note: "proposer of (1,0), height 1 commits; the life ends through the regular return path of driver.Run; restarted on what it left"}
+		x.or.Ask(cs.newLine()+"\ncheck 1 ; ; ", 1)
+		o0 := runLifeF(&cs, newDir(), cs.H0, 0, -1, &f, true, fixedFeeder(ins))
+		sc.Lives[0].Ins = ins[:o0.Fed]
+		h1 := cs.H0 + countCb(o0.effects())
+		x.judge(sc, 0, o0, nil, h1)
+		if o0.Snapshot == "" {
+			x.c.Violation(faultKind(&sc.Lives[0], o0)+":no-close", "driver.Run returned without closing the store", sc, true)
+			continue
+		}
+		sc.Lives = append(sc.Lives, Life{H: h1, Base: 1, Ins: ins, CrashAt: -1})
+		o1 := runLife(&cs, o0.Snapshot, h1, 1, -1, fixedFeeder(ins))
+		sc.Lives[1].Ins = ins[:o1.Fed]
+		x.judge(sc, 1, o1, o0.effects(), 0)
+		x.c.Hist["scripted:fault:"+f.Kind]++
+	}
+	os.RemoveAll(scratch)
+	hx.Must(os.MkdirAll(scratch, 0o755))
+}
+
 func main() {
 	c := hx.NewCtx("C13")
 	scratch = hx.TempDir("c13")
@@ -204,14 +302,15 @@ func main() {
 	}
 	x.runFixed(staleTimeoutCase())
 	c.Hist["scripted:stale-timeout"]++
-	nScen, maxPoints := 260, 24
+	x.scriptedFaults()
+	nScen, maxPoints, maxFaults := 260, 22, 4
 	if c.Thorough() {
-		nScen, maxPoints = 4000, 90
+		nScen, maxPoints, maxFaults = 4000, 90, 20
 	}
 	for i := 0; i < nScen && c.NViolations() < 6; i++ {
-		x.explore(maxPoints)
+		x.explore(maxPoints, maxFaults)
 	}
 	c.Extra["scenarios"] = nScen
 	os.RemoveAll(scratch)
-	c.Finish("for every kill point: driver trace == extracted model trace (both lives), and the extracted predicates no_conflict / consecutive commits from resume height / flush_before_visible / logged_first hold on the driver's observed effects")
+	c.Finish("for every kill point and for every way out through driver.Run's regular return path (failing SetWALEntry / Flush / DeleteWALEntries, refusing commit listener, cancelled context; Close's flush succeeding or not): driver trace == extracted model trace (all lives), log directory read back == the model's durable log (at the end of the life, sampled: at every state machine call), and the extracted predicates no_conflict / consecutive commits from resume height / flush_before_visible / logged_first / log_covers_visible / prunes_follow_cb / clean_when_visible hold on the driver's observed effects and log")
 }
